@@ -17,6 +17,10 @@ func init() {
 		notDecided: []string{"active-edge ordering (isValidAelOrder)", "intersection detection and rounding", "winding-count update arithmetic in intersectEdges/setWindCountForClosedPathEdge", "horizontal processing, joins and splits", "doSplitOp's area condition (no in-repo oracle)"},
 		rules: []func(*Ctx){
 			ruleAelJoinSplice("C01.ael.join"),
+			ruleHorzJoinRoles("C01.horz-roles"),
+			ruleSplitOnAdvance("C01.join.advance"),
+			ruleMergedOwner("C01.merged-owner"),
+			ruleShoelaceConvention("C01.area-sign", []string{"areaTriangle", "areaOP", "Area64", "AreaD"}, 3),
 			ruleWindingInvariant("C01.wind"),
 			ruleContribClosed("C01.table"),
 			ruleOpenGuard("C01.open-guard"),
@@ -34,6 +38,8 @@ func init() {
 		explanation: "Decides structural clauses of C09: (table) isContributingOpen equals the property's coverage table (Intersection: inside clip; Union: outside both; Difference: outside clip) on every cell of (fillRule, clipType, windCount, windCount2); (guard) an open edge is cut at a closed edge exactly when that edge bounds its own set; (skip) winding scans neither count nor are changed by open edges; (route) open records reach only the open solution; (horz) an open path's terminal horizontal consults the range test before intersecting a further edge. Does NOT decide cut positions or that pieces are sub-polylines.",
 		notDecided: []string{"cut positions (intersection rounding)", "sub-polyline-ness of the pieces", "horizontal open edges in doHorizontal", "Xor for open paths (the property does not constrain it)"},
 		rules: []func(*Ctx){
+			rulePrevHotEdge("C09.prev-hot"),
+			ruleScratchLocal("C09.scratch", []string{"(clipperBase).buildTree", "(clipperBase).buildPaths"}, 2, "every open piece is handed to the open solution by reference; filling the same variable for the next piece overwrites the earlier ones — visible only with two or more pieces"),
 			ruleContribOpen("C09.table"),
 			ruleOpenGuard("C09.guard"),
 			ruleOpenSkipped("C09.skip"),
@@ -92,7 +98,7 @@ func init() {
 			ruleRoundTrip("C13.roundtrip", 61),
 			ruleOnlyDifferences("C13.translate", []string{"CrossProduct", "dotProduct64", "isCollinear", "getDx", "getUnitNormal", "PerpendicDistFromLineSqr64"}, 4,
 				"translating every input by the same vector must translate the result: a predicate that reads a coordinate other than through a same-axis difference gives different answers (and different rounding) far from the origin"),
-			ruleLimb("C13.limb", "mulInt64", "(int128).add", "(int128).sub", "(int128).toFloat64", "(int128).isZero", "multiplyUInt64", "productsAreEqual"),
+			ruleLimb("C13.limb", "isCollinear", "mulInt64", "(int128).add", "(int128).sub", "(int128).toFloat64", "(int128).isZero", "multiplyUInt64", "productsAreEqual"),
 		},
 	})
 }
@@ -110,8 +116,9 @@ func init() {
 			ruleExactFloat("C14.exact.float", 29, exactPredicates, "the library treats three points as collinear / a point as on an edge exactly when this value is zero: a float detour beyond 53 bits rounds small non-zero cross products to zero (PointInPolygon answers IsOn for an inside point next to a long edge)"),
 			ruleBounds("C14.bounds", []string{"GetBounds64", "getBounds"}),
 			ruleBoundsEmpty("C14.bounds.empty"),
+			ruleShoelaceConvention("C14.area-sign", []string{"areaTriangle", "areaOP", "Area64", "AreaD"}, 3),
 			ruleCyclicPred("C14.wrap", []string{"PointInPolygon"}, 2, "the crossing test of vertex 0 is against the edge from the LAST vertex; reading another vertex tests a segment that is not an edge, and only polygons whose scan wraps past index 0 show it"),
-			ruleLimb("C14.limb", "mulInt64", "(int128).add", "(int128).sub", "(int128).toFloat64", "(int128).isZero", "multiplyUInt64", "productsAreEqual"),
+			ruleLimb("C14.limb", "isCollinear", "mulInt64", "(int128).add", "(int128).sub", "(int128).toFloat64", "(int128).isZero", "multiplyUInt64", "productsAreEqual"),
 			rulePositive("C14.pos"),
 		},
 	})
@@ -122,19 +129,25 @@ func init() {
 		id: "C02",
 		explanation: "Decides structural clauses of C02: (emit) every closed path reaches a solution only through cleanCollinear -> buildPath(pts, c.reverseSolution, false, &path) -> append guarded by buildPath()==true, in the flat and in the tree pipeline alike; (buildPath) buildPath refuses rings of fewer than 3 nodes before writing and never appends a point equal to the last appended one; (reverse) every buildPath call site passes the engine's reverseSolution option, and the offsetter derives it as ReverseSolution != pathsReversed. Does NOT decide winding 0/1 of the whole solution, hole orientation or idempotence of re-union.",
 		notDecided: []string{"winding number 0/1 of the solution (geometry of the sweep)", "orientation of outer boundaries vs holes (addLocalMinPoly side choice)", "idempotence of re-uniting a solution"},
-		rules:      []func(*Ctx){ruleEmit("C02"), ruleBuildPath("C02.buildPath"), ruleCleanCollinear("C02.clean"), ruleGrowingList("C02.grow"), ruleSplitRelabel("C02.split"), ruleSplitDedupe("C02.split.dedupe")},
+		rules:      []func(*Ctx){ruleEmit("C02"), ruleBuildPath("C02.buildPath"), ruleCleanCollinear("C02.clean"), ruleGrowingList("C02.grow"), ruleSplitRelabel("C02.split"), ruleSplitDedupe("C02.split.dedupe"), ruleHorzJoinRoles("C02.horz-roles")},
 	})
 	register(&propDef{
 		id: "C04",
 		explanation: "Decides structural clauses of C04: (once) AddChild is called only from recursiveCheckOwners, under the polypath==nil guard, and its node is stored in outrec.polypath, so each output record is inserted at most once; (same-pipeline) tree polygons are produced by the same cleanCollinear -> buildPath(pts, c.reverseSolution, false, &outrec.path) pipeline as the flat result and outrec.path has no other writer; (hole) IsHole() is true exactly on even non-zero levels and Level() counts .parent links; (owner) a ring split off by a horizontal join gets its owner by containment (inside the old ring: child; beside it: sibling; around it: rings swapped) and is recorded in the old ring's splits; (bounds) lazily computed OutRec.bounds are read only after checkBounds(record) succeeded; (grow) buildTree/buildPaths re-read len(outrecList) every iteration because clean-up appends records. Does NOT decide containment/nesting correctness (path1InsidePath2, owner heuristics) or innermost-parent choice.",
 		notDecided: []string{"containment and nesting (path1InsidePath2, checkSplitOwner, setOwner heuristics)", "innermost-parent choice", "equality of the polygon SET with the flat result when polygons split", "moveSplits appends loop indices instead of split values (deviation, not demonstrable: 120 000 random tree executions identical to a repaired copy)"},
-		rules:      []func(*Ctx){ruleEmit("C04"), ruleIsHole("C04.hole"), ruleHorzJoinOwner("C04.owner"), ruleLazyBounds("C04.bounds"), ruleGrowingList("C04.grow"), ruleLocalMaxOwner("C04.owner.max")},
+		rules:      []func(*Ctx){ruleEmit("C04"), ruleIsHole("C04.hole"), ruleHorzJoinOwner("C04.owner"), ruleLazyBounds("C04.bounds"), ruleGrowingList("C04.grow"), ruleLocalMaxOwner("C04.owner.max"),
+			ruleScratchLocal("C04.scratch", []string{"(clipperBase).buildTree", "(clipperBase).buildPaths"}, 2, "each result path is handed to the caller by reference; filling the same variable again overwrites (or prefixes) the pieces already handed over — visible only when a solution has two or more open pieces / polygons")},
 	})
 	register(&propDef{
 		id: "C12",
 		explanation: "Decides structural clauses of C12: (clear) in every exported Execute*, on every path, the first effect on each solution argument is a truncation / tree Clear, followed through the callees that receive it; (reset) every engine field written during an execution (computed from the code for clipperBase, ClipperOffset, RectClip64) has a re-initialisation proof: assigned by reset/prologue on every path, emptied by the epilogue that precedes every return, or a mode field assigned by every caller; the sorted-minima flag is cleared whenever the retained list grows; rectangle-clipper edge buckets are all emptied per path; (frozen-input) nothing reachable from an execution writes the retained Vertex/LocalMinima graph; (immutable) no library write can reach memory of a caller-supplied input slice. Identical state then implies identical results because the code is deterministic (C17).",
 		notDecided: []string{"independence of the order in which paths were added (geometric tie-breaking)", "conditionally assigned round-join step fields are argued by hand (stepSin/stepCos/stepsPerRad)", "callbacks and scale functions supplied by the caller"},
-		rules:      []func(*Ctx){ruleClearFirst("C12.clear"), ruleReset("C12.reset"), ruleFrozenInput("C12.frozen-input"), ruleImmutable("C12.immutable"), ruleMonotoneFlag("C12.flag", "clipperBase", "hasOpenPaths"), ruleFreshScratch("C12.fresh", "ClipperOffset", "pathOut")},
+		rules:      []func(*Ctx){
+			ruleNoStaleGuard("C12.step", "ClipperOffset", []string{"stepSin", "stepCos", "stepsPerRad"}, 3, "the arc step depends on |delta|, the tolerance AND the sign of the group's delta; keeping it from the previous group or execution turns round joins the wrong way for an object used with deltas of both signs"),
+			ruleInvalidateFlag("C12.minima-flag", "clipperBase", "minimaList", "isSortedMinimaList", 2, "local minima are popped from the end of a list sorted by Y; a path added after an execution, through an entry that forgets the flag, is swept out of order: the second Execute differs from a fresh engine given the same paths"),
+			ruleScratchField("C12.scratch", "ClipperOffset", "pathOut", 4, "a scratch slice written again after it was handed to the solution carries one path's points into the next"),
+			ruleScratchLocal("C12.scratch.local", []string{"(clipperBase).buildTree", "(clipperBase).buildPaths"}, 2, "each result path is handed to the caller by reference; filling the same variable again overwrites the pieces already handed over"),
+			ruleClearFirst("C12.clear"), ruleReset("C12.reset"), ruleFrozenInput("C12.frozen-input"), ruleImmutable("C12.immutable"), ruleMonotoneFlag("C12.flag", "clipperBase", "hasOpenPaths"), ruleFreshScratch("C12.fresh", "ClipperOffset", "pathOut")},
 	})
 }
 
@@ -180,7 +193,7 @@ func init() {
 		explanation: "Decides structural clauses of C15: (subseq) every vertex appended to the result is an element of the input path; (only) in the main scan a vertex is dropped exactly when isCollinear(last kept vertex, path[i], path[i+1]) holds; (wrap) each wrap-around scan of a closed path compares the moving vertex with a FIXED anchor on the other side of the start index; (open) an open path's last point is appended unconditionally; (pred) the collinearity predicate is exact: triSign is the sign function per cell and the products are 128-bit with no float detour; (limb) multiplyUInt64 returns a*b in two words (every partial product and carry used once at its weight, no intermediate overflow — a polynomial identity over split words) and productsAreEqual answers true only after comparing both words of both products, false only when one of those comparisons fails, and never compares a 64-bit product that may have wrapped. Does NOT decide 'no three consecutive collinear vertices remain', idempotence or the wrap-around bookkeeping as a whole.",
 		notDecided: []string{"no three cyclically consecutive result vertices are collinear", "idempotence of trimming", "area and winding preservation (follow from the clauses above only if the wrap-around bookkeeping is right)", "result empty when fewer than 3 vertices remain"},
 		rules: []func(*Ctx){
-			ruleTrimCollinear("C15"), ruleTriSign("C15.pred"), ruleLimb("C15.limb", "multiplyUInt64", "productsAreEqual"),
+			ruleTrimCollinear("C15"), ruleTriSign("C15.pred"), ruleLimb("C15.limb", "isCollinear", "multiplyUInt64", "productsAreEqual"),
 			ruleExactFloat("C15.pred.float", 29, []string{"isCollinear", "productsAreEqual"}, "collinearity must be decided on the exact integer cross product"),
 			ruleWidth("C15.pred.int", 29, []string{"isCollinear", "productsAreEqual", "TrimCollinear64"}, 4, "a wrapped difference or product makes non-collinear points look collinear"),
 		},
@@ -228,6 +241,7 @@ func init() {
 			ruleRectMirror("C06.mirror"),
 			ruleSegIntersectMirror("C06.mirror.seg"),
 			ruleInsideArmMirror("C06.mirror.inside"),
+			ruleRetireBeforeRelabel("C06.retire"),
 			ruleCyclicPred("C06.wrap", []string{"(RectClip64).executeInternal"}, 1, "the polygon is closed: the edge entering vertex 0 starts at the LAST vertex; any other choice clips a segment that is not an edge of the input"),
 			ruleDead("C06.corner-live", []string{"(RectClip64).executeInternal"}, []string{"(RectClip64).addCorner", "(RectClip64).addCornerLocation"}, 5, "corners of the rectangle enter the result only through these calls; when they are dead a path that leaves through one edge and re-enters through another loses the corner between them"),
 			ruleRectFast("C06.fast"),
